@@ -1,7 +1,7 @@
 (* C19 -- property theorems only.  Each is closed by `exact <lemma>`; axioms are
    printed by the audit step of bin/check (Print Assumptions per theorem). *)
 From Coq Require Import ZArith Bool List.
-From SV Require Import Common.GoInt C19.Model C19.Spec C19.Proofs.
+From SV Require Import Common.GoInt C19.Model C19.Spec C19.Proofs C19.ProofsExt.
 Open Scope Z_scope.
 
 (* Each operator applied to operands in the order written gives the exact
@@ -88,6 +88,67 @@ Theorem timestamp_roundtrip :
     (in_int64 t = true -> from_timestamp 0 (attr_unix_nano t) = t) /\
     0 <= attr_nanosecond t < 1000000000.
 Proof. exact timestamp_roundtrip_lemma. Qed.
+
+(* != is the negation of == on every pair of values (an error or an
+   out-of-scope answer is the same for both). *)
+Theorem neq_is_negation :
+  forall x y, compare NEQ x y = out_negb (compare EQL x y).
+Proof. exact neq_is_negation_lemma. Qed.
+
+(* On two times or two durations all six operators are read off one three-way
+   comparison of the instants: <= is (< or ==), > its negation, >= the negation
+   of <, and the mirrored comparison agrees. *)
+Theorem comparison_operators_coherent :
+  forall x y, same_kind x y = true ->
+    exists lt eq,
+      compare LT x y = OBool lt /\ compare EQL x y = OBool eq /\
+      compare LE x y = OBool (lt || eq) /\
+      compare GT x y = OBool (negb (lt || eq)) /\
+      compare GE x y = OBool (negb lt) /\
+      compare NEQ x y = OBool (negb eq) /\
+      compare GT y x = OBool lt /\ compare EQL y x = OBool eq /\
+      (lt && eq = false).
+Proof. exact derived_operators_lemma. Qed.
+
+(* A time or duration is never equal to, and never ordered with, a value of
+   another kind. *)
+Theorem cross_kind_comparisons :
+  forall x y, involves_time x y = true -> same_kind x y = false ->
+    compare EQL x y = OBool false /\ compare NEQ x y = OBool true /\
+    compare LT x y = OErr /\ compare LE x y = OErr /\
+    compare GT x y = OErr /\ compare GE x y = OErr.
+Proof. exact cross_kind_lemma. Qed.
+
+(* == implies equal hashes for every pair of values involving a time or a
+   duration, whatever the zones. *)
+Theorem eq_implies_equal_hash :
+  forall x y, involves_time x y = true ->
+    compare EQL x y = OBool true -> hash x = hash y.
+Proof. exact eq_hash_all_lemma. Qed.
+
+(* Constructor direction of the timestamp round trip: from_timestamp accepts any
+   nanosecond argument and carries it into the seconds; in-range arguments read
+   back unchanged. *)
+Theorem from_timestamp_normalises :
+  forall sec nsec,
+    attr_unix (from_timestamp sec nsec) = sec + nsec / 1000000000 /\
+    attr_nanosecond (from_timestamp sec nsec) = nsec mod 1000000000 /\
+    (0 <= nsec < 1000000000 ->
+       attr_unix (from_timestamp sec nsec) = sec /\
+       attr_nanosecond (from_timestamp sec nsec) = nsec).
+Proof. exact from_timestamp_normalises_lemma. Qed.
+
+Theorem from_timestamp_injective :
+  forall s1 n1 s2 n2,
+    from_timestamp s1 n1 = from_timestamp s2 n2 <->
+    (s1 + n1 / 1000000000 = s2 + n2 / 1000000000 /\ n1 mod 1000000000 = n2 mod 1000000000).
+Proof. exact from_timestamp_injective_lemma. Qed.
+
+Example comparison_premises_hold :
+  same_kind (VTime 5 1) (VTime 5 2) = true /\ compare LE (VTime 5 1) (VTime 5 2) = OBool true /\
+  involves_time (VDur 1) (VInt 1) = true /\ same_kind (VDur 1) (VInt 1) = false /\
+  attr_unix (from_timestamp 10 (-1)) = 9 /\ attr_nanosecond (from_timestamp 10 (-1)) = 999999999.
+Proof. vm_compute. repeat split. Qed.
 
 (* Non-vacuity: concrete operands meet the hypotheses of binary_table_exact. *)
 Example table_premises_hold :
